@@ -21,11 +21,11 @@ import (
 )
 
 type op struct {
-	Kind  string `json:"kind"` // req | set | del | hostset | hostunset
+	Kind  string `json:"kind"`  // req | set | del | hostset | hostunset
 	Quiet bool   `json:"quiet"` // nothing is read from any runtime after this operation
 	Rt    int    `json:"rt"`
-	K    string `json:"k"` // hex
-	V    string `json:"v"` // hex
+	K     string `json:"k"` // hex
+	V     string `json:"v"` // hex
 }
 
 type childSpec struct {
@@ -34,7 +34,7 @@ type childSpec struct {
 }
 
 type snapshot struct {
-	Rts  [][][2]string `json:"rts"`  // per runtime: nil if process not required yet, else sorted [k,v] hex pairs
+	Rts  [][][2]string `json:"rts"` // per runtime: nil if process not required yet, else sorted [k,v] hex pairs
 	Has  []bool        `json:"has"`
 	Host []string      `json:"host"` // os.Environ() hex, sorted
 }
@@ -244,6 +244,15 @@ func main() {
 				}
 				continue
 			}
+			// what a script's own assignment to (or delete of) the name __proto__ does to the object it acts on is JavaScript's
+			// business (it addresses the prototype, not an entry), and the property claims nothing about it: scripts write and
+			// delete every other name, __proto__ stays in the pool of HOST variable names (the snapshot must list it as data)
+			jsKey := func(k string) string {
+				if k == "__proto__" {
+					return "__proto__0"
+				}
+				return k
+			}
 			switch k := r.Intn(10); {
 			case k < 4:
 				ops = append(ops, op{Kind: "req", Rt: rt})
@@ -254,7 +263,7 @@ func main() {
 				} else {
 					key = genName(r, map[string]bool{})
 				}
-				ops = append(ops, op{Kind: "set", Rt: rt, K: hx(key), V: hx(genValue(r))})
+				ops = append(ops, op{Kind: "set", Rt: rt, K: hx(jsKey(key)), V: hx(genValue(r))})
 			default:
 				var key string
 				if len(pairs) > 0 && r.Chance(70) {
@@ -262,7 +271,7 @@ func main() {
 				} else {
 					key = genName(r, map[string]bool{})
 				}
-				ops = append(ops, op{Kind: "del", Rt: rt, K: hx(key)})
+				ops = append(ops, op{Kind: "del", Rt: rt, K: hx(jsKey(key))})
 			}
 		}
 		ops[len(ops)-1].Quiet = false // the history ends with a reading
